@@ -1586,6 +1586,10 @@ Error Assembler::_emit(InstId inst_id, const Operand_& o0, const Operand_& o1, c
         if (shift_type > uint32_t(ShiftOp::kROR) || shift_value >= op_size)
           goto InvalidImmediate;
 
+        // ROR is only available to MVN (ORN); NEG|NEGS (SUB|SUBS shifted register) don't have it.
+        if (shift_type == uint32_t(ShiftOp::kROR) && (op_data.opcode & B(24)))
+          goto InvalidImmediate;
+
         opcode.add_imm(shift_type, 22);
         opcode.add_imm(shift_value, 10);
         goto EmitOp;
@@ -1629,6 +1633,9 @@ Error Assembler::_emit(InstId inst_id, const Operand_& o0, const Operand_& o1, c
       opcode.add_reg(o1, 16);
       opcode.add_reg(o0, 5);
       opcode.add_reg(Gp::kIdZr, 0);
+
+      if ((isign4 == ENC_OPS2(Reg, Reg) || isign4 == ENC_OPS3(Reg, Reg, Imm)) && !check_signature(o0, o1))
+        goto InvalidInstruction;
 
       if (isign4 == ENC_OPS2(Reg, Reg)) {
         if (!check_gp_id(o0, o1, kZR))
@@ -1674,7 +1681,7 @@ Error Assembler::_emit(InstId inst_id, const Operand_& o0, const Operand_& o1, c
         uint64_t width = o2.as<Imm>().value_as<uint64_t>();
         uint32_t op_size = x ? 64 : 32;
 
-        if (lsb >= op_size || width == 0 || width > op_size)
+        if (lsb >= op_size || width == 0 || width > op_size - lsb)
           goto InvalidImmediate;
 
         uint32_t lsb32 = Support::neg(uint32_t(lsb)) & (op_size - 1);
@@ -1710,7 +1717,7 @@ Error Assembler::_emit(InstId inst_id, const Operand_& o0, const Operand_& o1, c
         uint64_t width = o3.as<Imm>().value_as<uint64_t>();
         uint32_t op_size = x ? 64 : 32;
 
-        if (lsb >= op_size || width == 0 || width > op_size)
+        if (lsb >= op_size || width == 0 || width > op_size - lsb)
           goto InvalidImmediate;
 
         uint32_t imm_l = Support::neg(uint32_t(lsb)) & (op_size - 1);
@@ -2018,7 +2025,7 @@ Error Assembler::_emit(InstId inst_id, const Operand_& o0, const Operand_& o1, c
           goto InvalidPhysId;
 
         uint64_t cond = o2.as<Imm>().value_as<uint64_t>();
-        if (cond - 2u > 0xEu)
+        if (cond - 2u >= 0xEu)
           goto InvalidImmediate;
 
         opcode.reset(op_data.opcode);
@@ -2379,6 +2386,9 @@ Error Assembler::_emit(InstId inst_id, const Operand_& o0, const Operand_& o1, c
         uint64_t imm = o1.as<Imm>().value_as<uint64_t>();
 
         opcode.reset(op_data.opcode);
+        if (imm >= 64)
+          goto InvalidImmediate;
+
         if (imm >= 32) {
           if (!x)
             goto InvalidImmediate;
@@ -3287,6 +3297,9 @@ Case_BaseLdurStur:
         };
 
         uint32_t type_opc = table[(dst_sz << 2) | src_sz];
+        if (type_opc == 0xFFu)
+          goto InvalidInstruction;
+
         opcode.reset(0b0001111000100010010000 << 10);
         opcode.add_imm(type_opc >> 4, 22);
         opcode.add_imm(type_opc & 15, 15);
